@@ -20,6 +20,56 @@ impl<T: Types> codeq::EncSpec for RaftLogState<T> {
     /// version byte 1, then the five optional fields in declaration order
     open spec fn enc(&self) -> Seq<u8> { seq![1u8] + self.vote.enc() + self.last.enc() + self.committed.enc() + self.purged.enc() + self.user_data.enc() }
     open spec fn err_ok(input: Seq<u8>, k: IoErrorKind) -> bool { true }
+    /// version byte 1, then the five optional fields one after the other
+    open spec fn dec(s: Seq<u8>) -> Option<(Self, nat)> {
+        if s.len() < 1 || s[0] != 1 { None } else {
+            let s1 = s.skip(1);
+            match Option::<T::Vote>::dec(s1) { None => None, Some((vote, n1)) => {
+            let s2 = s1.skip(n1 as int);
+            match Option::<T::LogId>::dec(s2) { None => None, Some((last, n2)) => {
+            let s3 = s2.skip(n2 as int);
+            match Option::<T::LogId>::dec(s3) { None => None, Some((committed, n3)) => {
+            let s4 = s3.skip(n3 as int);
+            match Option::<T::LogId>::dec(s4) { None => None, Some((purged, n4)) => {
+            let s5 = s4.skip(n4 as int);
+            match Option::<T::UserData>::dec(s5) { None => None, Some((user_data, n5)) =>
+                Some((RaftLogState { vote, last, committed, purged, user_data }, 1 + n1 + n2 + n3 + n4 + n5)) } } } } } } } } }
+        }
+    }
+    proof fn law_dec_enc(v: Self, rest: Seq<u8>) {
+        let e0 = seq![1u8]; let e1 = v.vote.enc(); let e2 = v.last.enc(); let e3 = v.committed.enc(); let e4 = v.purged.enc(); let e5 = v.user_data.enc();
+        let s = v.enc() + rest;
+        let t5 = rest; let t4 = e5 + t5; let t3 = e4 + t4; let t2 = e3 + t3; let t1 = e2 + t2; let t0 = e1 + t1;
+        assert(s =~= e0 + t0);
+        assert(s[0] == 1);
+        let s1 = s.skip(1);
+        assert(s1 =~= e1 + t1);
+        <Option<T::Vote> as codeq::EncSpec>::law_dec_enc(v.vote, t1);
+        let s2 = s1.skip(e1.len() as int);
+        assert(s2 =~= e2 + t2);
+        <Option<T::LogId> as codeq::EncSpec>::law_dec_enc(v.last, t2);
+        let s3 = s2.skip(e2.len() as int);
+        assert(s3 =~= e3 + t3);
+        <Option<T::LogId> as codeq::EncSpec>::law_dec_enc(v.committed, t3);
+        let s4 = s3.skip(e3.len() as int);
+        assert(s4 =~= e4 + t4);
+        <Option<T::LogId> as codeq::EncSpec>::law_dec_enc(v.purged, t4);
+        let s5 = s4.skip(e4.len() as int);
+        assert(s5 =~= e5 + t5);
+        <Option<T::UserData> as codeq::EncSpec>::law_dec_enc(v.user_data, t5);
+        assert(v.enc().len() == 1 + e1.len() + e2.len() + e3.len() + e4.len() + e5.len());
+        assert(RaftLogState::<T> { vote: v.vote, last: v.last, committed: v.committed, purged: v.purged, user_data: v.user_data } == v);
+    }
+}
+/// the fields of a record with type tag `t`, parsed from `s1`
+pub open spec fn dec_fields<T: Types>(t: u32, s1: Seq<u8>) -> Option<(WALRecord<T>, nat)> {
+    if t == 0 { match T::Vote::dec(s1) { Some((v, n)) => Some((WALRecord::SaveVote(v), n)), None => None } }
+    else if t == 1 { match T::LogId::dec(s1) { None => None, Some((l, n1)) => match T::LogPayload::dec(s1.skip(n1 as int)) { None => None, Some((p, n2)) => Some((WALRecord::Append(l, p), n1 + n2)) } } }
+    else if t == 2 { match T::LogId::dec(s1) { Some((l, n)) => Some((WALRecord::Commit(l), n)), None => None } }
+    else if t == 3 { match Option::<T::LogId>::dec(s1) { Some((l, n)) => Some((WALRecord::TruncateAfter(l), n)), None => None } }
+    else if t == 4 { match T::LogId::dec(s1) { Some((l, n)) => Some((WALRecord::PurgeUpto(l), n)), None => None } }
+    else if t == 5 { match RaftLogState::<T>::dec(s1) { Some((st, n)) => Some((WALRecord::State(st), n)), None => None } }
+    else { None }
 }
 impl<T: Types> codeq::EncSpec for WALRecord<T> {
     /// type tag, fields, 8-byte checksum of tag+fields
@@ -28,6 +78,47 @@ impl<T: Types> codeq::EncSpec for WALRecord<T> {
     /// an unknown tag on a complete record is InvalidData
     open spec fn err_ok(input: Seq<u8>, k: IoErrorKind) -> bool {
         k == IoErrorKind::UnexpectedEof ==> input.len() < 4 || tag_known(input)
+    }
+    /// 4-byte tag, the fields of that record type, then the 8-byte checksum of tag+fields
+    open spec fn dec(s: Seq<u8>) -> Option<(Self, nat)> {
+        if s.len() < 4 { None } else {
+            match dec_fields::<T>(u32_of_be(s.take(4)), s.skip(4)) {
+                None => None,
+                Some((rec, n)) => {
+                    let s2 = s.skip(4).skip(n as int);
+                    if s2.len() >= 8 && s2.take(8) == be64(crc(s.take(4 + n as int))) { Some((rec, 4 + n + 8)) } else { None }
+                }
+            }
+        }
+    }
+    proof fn law_dec_enc(v: Self, rest: Seq<u8>) {
+        broadcast use axiom_be64_len;
+        let tag = be32(rec_tag(v)); let f = rec_fields(v); let c = be64(crc(rec_body(v)));
+        let s = v.enc() + rest;
+        lemma_be32_inv(rec_tag(v));
+        assert(s =~= tag + (f + (c + rest)));
+        assert(s.take(4) =~= tag);
+        let s1 = s.skip(4);
+        assert(s1 =~= f + (c + rest));
+        match v {
+            WALRecord::SaveVote(x) => { T::Vote::law_dec_enc(x, c + rest); }
+            WALRecord::Append(l, p) => {
+                assert(s1 =~= l.enc() + (p.enc() + (c + rest)));
+                T::LogId::law_dec_enc(l, p.enc() + (c + rest));
+                assert(s1.skip(l.enc().len() as int) =~= p.enc() + (c + rest));
+                T::LogPayload::law_dec_enc(p, c + rest);
+            }
+            WALRecord::Commit(l) => { T::LogId::law_dec_enc(l, c + rest); }
+            WALRecord::TruncateAfter(l) => { <Option<T::LogId> as codeq::EncSpec>::law_dec_enc(l, c + rest); }
+            WALRecord::PurgeUpto(l) => { T::LogId::law_dec_enc(l, c + rest); }
+            WALRecord::State(st) => { RaftLogState::<T>::law_dec_enc(st, c + rest); }
+        }
+        assert(dec_fields::<T>(rec_tag(v), s1) == Some((v, f.len())));
+        let s2 = s1.skip(f.len() as int);
+        assert(s2 =~= c + rest);
+        assert(s2.take(8) =~= c);
+        assert(s.take(4 + f.len() as int) =~= rec_body(v));
+        assert(v.enc().len() == 4 + f.len() + 8);
     }
 }
 
